@@ -81,22 +81,24 @@ end post
 
 /-! ### the bundle -/
 
-def FieldsWF (l : List (Y × Ast)) : Prop := ∀ q ∈ l, q.1.truthy = true ∧ WF false q.2
+def FieldsWF (l : List (String × Ast)) : Prop := ∀ q ∈ l, q.1 ≠ "" ∧ WF false q.2
 def StmtsWF (top : Bool) (l : List Ast) : Prop := ∀ a ∈ l, WF top a ∧ isStatement a = true
 
 structure AllWF (fuel : Nat) : Prop where
-  fv : ∀ m v, Post (WF false) (parseFieldValue fuel m v)
-  st : ∀ m kvs, Post (WF false) (parseStructured fuel m kvs)
-  args : ∀ m a, Post (fun pa => (∀ x ∈ pa.1, WF false x) ∧ ∀ p ∈ pa.2, WF false p.2) (parseArgs fuel m a)
-  fields : ∀ m kvs, Post FieldsWF (parseFields fuel m kvs)
-  stmts : ∀ m top xs, Post (StmtsWF top) (parseStmts fuel m top xs)
-  var : ∀ m kvs, getTruthy kvs "var" = true →
-    Post (fun a => ∀ top, WF top a ∧ isStatement a = true) (parseVar fuel m kvs)
-  fe : ∀ m kvs, Post (fun p => WF false p.2) (parseForEach fuel m kvs)
-  incs : ∀ m names parents, Post (fun r => FieldsWF r.1 ∧ StmtsWF false r.2) (parseInclusions fuel m names parents)
-  mac : ∀ m name parents, Post (fun r => FieldsWF r.1 ∧ StmtsWF false r.2) (includeMacro fuel m name parents)
-  tmpl : ∀ m top kvs, getTruthy kvs "object" = true →
-    Post (fun a => WF top a ∧ isStatement a = true) (parseTemplate fuel m top kvs)
+  fv : ∀ m ex v, Post (WF false) (parseFieldValue fuel m ex v)
+  st : ∀ m ex kvs, Post (WF false) (parseStructured fuel m ex kvs)
+  args : ∀ m ex a, Post (fun pa => (∀ x ∈ pa.1, WF false x) ∧ ∀ p ∈ pa.2, WF false p.2) (parseArgs fuel m ex a)
+  fields : ∀ m ex kvs, Post FieldsWF (parseFields fuel m ex kvs)
+  stmts : ∀ m ex top xs, Post (StmtsWF top) (parseStmts fuel m ex top xs)
+  var : ∀ m ex kvs, getTruthy kvs "var" = true →
+    Post (fun a => ∀ top, WF top a ∧ isStatement a = true) (parseVar fuel m ex kvs)
+  fe : ∀ m ex kvs, Post (fun p => WF false p.2) (parseForEach fuel m ex kvs)
+  incs : ∀ m ex names parents,
+    Post (fun r => FieldsWF r.1 ∧ StmtsWF false r.2) (parseInclusions fuel m ex names parents)
+  mac : ∀ m ex name parents,
+    Post (fun r => FieldsWF r.1 ∧ StmtsWF false r.2) (includeMacro fuel m ex name parents)
+  tmpl : ∀ m ex top kvs, getTruthy kvs "object" = true →
+    Post (fun a => WF top a ∧ isStatement a = true) (parseTemplate fuel m ex top kvs)
 
 theorem allWF_zero : AllWF 0 := by
   constructor
@@ -105,16 +107,6 @@ theorem allWF_zero : AllWF 0 := by
     simp only [parseFieldValue, parseStructured, parseArgs, parseFields,
       parseStmts, parseVar, parseForEach, parseInclusions, includeMacro, parseTemplate]
     exact post_fuel
-
-theorem wf_false_of {top : Bool} {a : Ast} (h : WF top a) (hs : ∀ t n j u f fr c fe, a = .tmpl t n j u f fr c fe → j = false) :
-    WF false a := by
-  cases h with
-  | simple _ v => exact WF.simple _ v
-  | struct _ fn pos kw h1 h2 h3 => exact WF.struct _ fn pos kw h1 h2 h3
-  | tmpl _ table nick jo uk fields friends count fe h1 h2 h3 h4 h5 h6 h7 h8 h9 =>
-    have := hs _ _ _ _ _ _ _ _ rfl
-    exact WF.tmpl _ table nick jo uk fields friends count fe h1 h2 (by intro hj; rw [this] at hj; cases hj) h4 h5 h6 h7 h8 h9
-  | var _ name v h1 h2 => exact WF.var _ name v h1 h2
 
 theorem optStrOf_ne (kvs : KVs) (k : String) : optStrOf kvs k ≠ some "" := by
   unfold optStrOf
@@ -127,52 +119,49 @@ theorem optStrOf_ne (kvs : KVs) (k : String) : optStrOf kvs k ≠ some "" := by
       rw [h] at hn; simp at hn
   · simp
 
-theorem truthy_str_ne {k : Y} (h1 : k.truthy = true) (h2 : k.isStr = true) : keyStr k ≠ "" := by
-  cases k <;> simp [Y.isStr] at h2
-  simpa [Y.truthy, keyStr] using h1
-
 section step
 variable {fuel : Nat} (ih : AllWF fuel)
 include ih
 
-theorem wf_fv_step (m : Macros) (v : Y) : Post (WF false) (parseFieldValue (fuel + 1) m v) := by
+theorem wf_fv_step (m : Macros) (ex : List String) (v : Y) :
+    Post (WF false) (parseFieldValue (fuel + 1) m ex v) := by
   simp only [parseFieldValue]
   split
-  · exact ih.fv m _
-  · exact post_stuck _
+  · exact ih.fv m ex _
+  · exact post_err _
   · split
     · rename_i hobj
-      exact post_mono (ih.tmpl m false _ hobj) (fun a h => h.1)
-    · exact ih.st m _
+      exact post_mono (ih.tmpl m ex false _ hobj) (fun a h => h.1)
+    · exact ih.st m ex _
   · exact post_ok (WF.simple _ _)
 
-theorem wf_st_step (m : Macros) (kvs : KVs) : Post (WF false) (parseStructured (fuel + 1) m kvs) := by
+theorem wf_st_step (m : Macros) (ex : List String) (kvs : KVs) :
+    Post (WF false) (parseStructured (fuel + 1) m ex kvs) := by
   simp only [parseStructured]
   split
   · exact post_err _
-  · rename_i k a rest
-    split
+  · split
     · rename_i fn
       split
-      · exact post_stuck _
+      · exact post_err _
       · rename_i hd
         simp only [bind_eq, pure_eq]
-        apply post_bind (ih.args m _)
+        apply post_bind (ih.args m ex _)
         intro pa hpa
         have hwf : WF false (Ast.struct fn pa.1 pa.2) :=
           WF.struct _ fn pa.1 pa.2 (by omega) hpa.1 hpa.2
         split
         · exact post_ok hwf
         · exact post_ok hwf
-    · exact post_stuck _
+    · exact post_err _
 
-theorem wf_args_step (m : Macros) (a : Y) :
-    Post (fun pa => (∀ x ∈ pa.1, WF false x) ∧ ∀ p ∈ pa.2, WF false p.2) (parseArgs (fuel + 1) m a) := by
+theorem wf_args_step (m : Macros) (ex : List String) (a : Y) :
+    Post (fun pa => (∀ x ∈ pa.1, WF false x) ∧ ∀ p ∈ pa.2, WF false p.2) (parseArgs (fuel + 1) m ex a) := by
   have hscalar : ∀ s : Y,
       Post (fun pa => (∀ x ∈ pa.1, WF false x) ∧ ∀ p ∈ pa.2, WF false p.2)
-        ((parseFieldValue fuel m s).bind fun x => (Res.ok ([x], []) [] : Res Ref)) := by
+        ((parseFieldValue fuel m ex s).bind fun x => (Res.ok ([x], []) [] : Res Ref)) := by
     intro s
-    apply post_bind (ih.fv m s)
+    apply post_bind (ih.fv m ex s)
     intro x hx
     apply post_ok
     constructor
@@ -186,7 +175,7 @@ theorem wf_args_step (m : Macros) (a : Y) :
       intro p _
       apply post_bind_eq
       intro k _ _
-      apply post_bind (ih.fv m p.2)
+      apply post_bind (ih.fv m ex p.2)
       intro x hx
       exact post_ok hx
     · intro kw hkw
@@ -201,7 +190,7 @@ theorem wf_args_step (m : Macros) (a : Y) :
     apply post_bind (P' := fun pos : List Ast => ∀ x ∈ pos, WF false x)
     · apply post_mapR
       intro x _
-      exact ih.fv m x
+      exact ih.fv m ex x
     · intro pos hpos
       apply post_ok
       exact ⟨hpos, fun p hp => by cases hp⟩
@@ -212,43 +201,45 @@ theorem wf_args_step (m : Macros) (a : Y) :
   | str _ => simp only [parseArgs, bind_eq, pure_eq]; exact hscalar _
   | date _ => simp only [parseArgs, bind_eq, pure_eq]; exact hscalar _
 
-theorem wf_fields_step (m : Macros) (kvs : KVs) : Post FieldsWF (parseFields (fuel + 1) m kvs) := by
+theorem wf_fields_step (m : Macros) (ex : List String) (kvs : KVs) :
+    Post FieldsWF (parseFields (fuel + 1) m ex kvs) := by
   simp only [parseFields]
   apply post_mapR
   intro p _
   split
-  · exact post_stuck _
-  · rename_i ht
-    simp only [bind_eq, pure_eq]
-    apply post_bind (ih.fv m p.2)
-    intro x hx
-    apply post_ok
-    exact ⟨by simpa using ht, hx⟩
+  · rename_i name _
+    split
+    · exact post_err _
+    · rename_i hne
+      simp only [bind_eq, pure_eq]
+      apply post_bind (ih.fv m ex p.2)
+      intro x hx
+      apply post_ok
+      exact ⟨by simpa using hne, hx⟩
+  · exact post_err _
 
-theorem wf_stmts_step (m : Macros) (top : Bool) (xs : List Y) :
-    Post (StmtsWF top) (parseStmts (fuel + 1) m top xs) := by
+theorem wf_stmts_step (m : Macros) (ex : List String) (top : Bool) (xs : List Y) :
+    Post (StmtsWF top) (parseStmts (fuel + 1) m ex top xs) := by
   simp only [parseStmts]
   apply post_mapR
   intro x _
   split
   · split
-    · rename_i hobj; exact ih.tmpl m top _ hobj
+    · rename_i hobj; exact ih.tmpl m ex top _ hobj
     · split
       · rename_i hvar
-        exact post_mono (ih.var m _ hvar) (fun a h => h top)
-      · split
-        · exact post_err _
-        · exact post_stuck _
-  · exact post_stuck _
+        exact post_mono (ih.var m ex _ hvar) (fun a h => h top)
+      · exact post_err _
+  · exact post_err _
 
-theorem wf_var_step (m : Macros) (kvs : KVs) (hv : getTruthy kvs "var" = true) :
-    Post (fun a => ∀ top, WF top a ∧ isStatement a = true) (parseVar (fuel + 1) m kvs) := by
+theorem wf_var_step (m : Macros) (ex : List String) (kvs : KVs) (hv : getTruthy kvs "var" = true) :
+    Post (fun a => ∀ top, WF top a ∧ isStatement a = true) (parseVar (fuel + 1) m ex kvs) := by
   simp only [parseVar, bind_eq, pure_eq]
   apply post_bind_eq
   intro _ _ _
   split
   · rename_i name value h1 h2
-    apply post_bind (ih.fv m value)
+    apply post_bind (ih.fv m ex value)
     intro x hx
     apply post_ok
     intro top
@@ -258,24 +249,25 @@ theorem wf_var_step (m : Macros) (kvs : KVs) (hv : getTruthy kvs "var" = true) :
     simpa [Y.truthy] using hv
   · exact post_stuck _
 
-theorem wf_fe_step (m : Macros) (kvs : KVs) : Post (fun p => WF false p.2) (parseForEach (fuel + 1) m kvs) := by
+theorem wf_fe_step (m : Macros) (ex : List String) (kvs : KVs) :
+    Post (fun p => WF false p.2) (parseForEach (fuel + 1) m ex kvs) := by
   simp only [parseForEach, bind_eq, pure_eq]
   apply post_bind_eq
   intro _ _ _
   split
   · rename_i name value h1 h2
-    apply post_bind (ih.fv m value)
+    apply post_bind (ih.fv m ex value)
     intro x hx
     exact post_ok hx
   · exact post_stuck _
 
-theorem wf_incs_step (m : Macros) (names parents : List String) :
-    Post (fun r => FieldsWF r.1 ∧ StmtsWF false r.2) (parseInclusions (fuel + 1) m names parents) := by
+theorem wf_incs_step (m : Macros) (ex names parents : List String) :
+    Post (fun r => FieldsWF r.1 ∧ StmtsWF false r.2) (parseInclusions (fuel + 1) m ex names parents) := by
   simp only [parseInclusions, bind_eq, pure_eq]
-  apply post_bind (P' := fun rs : List (List (Y × Ast) × List Ast) => ∀ r ∈ rs, FieldsWF r.1 ∧ StmtsWF false r.2)
+  apply post_bind (P' := fun rs : List (List (String × Ast) × List Ast) => ∀ r ∈ rs, FieldsWF r.1 ∧ StmtsWF false r.2)
   · apply post_mapR
     intro n _
-    exact ih.mac m n parents
+    exact ih.mac m ex n parents
   · intro rs hrs
     apply post_ok
     constructor
@@ -288,8 +280,8 @@ theorem wf_incs_step (m : Macros) (names parents : List String) :
       obtain ⟨r, hr, har⟩ := ha
       exact (hrs r hr).2 a har
 
-theorem wf_mac_step (m : Macros) (name : String) (parents : List String) :
-    Post (fun r => FieldsWF r.1 ∧ StmtsWF false r.2) (includeMacro (fuel + 1) m name parents) := by
+theorem wf_mac_step (m : Macros) (ex : List String) (name : String) (parents : List String) :
+    Post (fun r => FieldsWF r.1 ∧ StmtsWF false r.2) (includeMacro (fuel + 1) m ex name parents) := by
   simp only [includeMacro]
   split
   · exact post_err _
@@ -298,13 +290,13 @@ theorem wf_mac_step (m : Macros) (name : String) (parents : List String) :
     intro _ _ _
     split
     · exact post_err _
-    · apply post_bind (ih.incs m _ _)
+    · apply post_bind (ih.incs m _ _ _)
       intro inc hinc
       apply post_bind (P' := FieldsWF)
-        (post_onMap (fun q hq => by cases hq) (fun f _ => ih.fields m f))
+        (post_onMap (fun q hq => by cases hq) (fun f _ => ih.fields m _ f))
       intro fields hfields
       apply post_bind (P' := StmtsWF false)
-        (post_onList (fun q hq => by cases hq) (fun f _ => ih.stmts m false f))
+        (post_onList (fun q hq => by cases hq) (fun f _ => ih.stmts m _ false f))
       intro friends hfriends
       apply post_ok
       constructor
@@ -317,8 +309,9 @@ theorem wf_mac_step (m : Macros) (name : String) (parents : List String) :
         · exact hinc.2 a ha
         · exact hfriends a ha
 
-theorem wf_tmpl_step (m : Macros) (top : Bool) (kvs : KVs) (hobj : getTruthy kvs "object" = true) :
-    Post (fun a => WF top a ∧ isStatement a = true) (parseTemplate (fuel + 1) m top kvs) := by
+theorem wf_tmpl_step (m : Macros) (ex : List String) (top : Bool) (kvs : KVs)
+    (hobj : getTruthy kvs "object" = true) :
+    Post (fun a => WF top a ∧ isStatement a = true) (parseTemplate (fuel + 1) m ex top kvs) := by
   simp only [parseTemplate, bind_eq, pure_eq]
   apply post_bind_eq
   intro _ _ _
@@ -327,60 +320,53 @@ theorem wf_tmpl_step (m : Macros) (top : Bool) (kvs : KVs) (hobj : getTruthy kvs
   · rename_i hjo
     split
     · rename_i table htable
-      apply post_bind (ih.incs m _ _)
+      apply post_bind (ih.incs m ex _ _)
       intro inc hinc
       apply post_bind (P' := FieldsWF)
-        (post_onMap (fun q hq => by cases hq) (fun f _ => ih.fields m f))
+        (post_onMap (fun q hq => by cases hq) (fun f _ => ih.fields m ex f))
       intro fields hfields
       apply post_bind (P' := StmtsWF false)
-        (post_onList (fun q hq => by cases hq) (fun f _ => ih.stmts m false f))
+        (post_onList (fun q hq => by cases hq) (fun f _ => ih.stmts m ex false f))
       intro friends hfriends
-      apply post_bind (post_optR (P := WF false) (fun c _ => ih.fv m c))
+      apply post_bind (post_optR (P := WF false) (fun c _ => ih.fv m ex c))
       intro count hcount
-      apply post_bind (post_optMapR (P := fun p : String × Ast => WF false p.2) (fun fe _ => ih.fe m fe))
+      apply post_bind (post_optMapR (P := fun p : String × Ast => WF false p.2) (fun fe _ => ih.fe m ex fe))
       intro forEach hfe
       split
       · exact post_err _
       · rename_i hboth
-        split
-        · rename_i hall
-          apply post_ok
-          refine ⟨?_, rfl⟩
-          have hallF : FieldsWF (inc.1 ++ fields) := by
-            intro q hq
-            rcases List.mem_append.mp hq with hq | hq
-            · exact hinc.1 q hq
-            · exact hfields q hq
-          apply WF.tmpl
-          · -- table ≠ ""
-            unfold getTruthy at hobj
-            rw [htable] at hobj
-            simpa [Y.truthy] using hobj
-          · exact optStrOf_ne _ _
-          · intro hj
-            cases top with
-            | true => rfl
-            | false => simp [hj] at hjo
-          · intro p hp
-            obtain ⟨q, hq, he⟩ := (dedupe_mem hp).1
-            obtain ⟨q0, hq0, rfl⟩ := List.mem_map.mp hq
-            rw [← he]
-            simp only
-            have hstr := (List.all_eq_true.mp hall) q0 hq0
-            exact truthy_str_ne (hallF q0 hq0).1 hstr
-          · intro p hp
-            obtain ⟨q, hq, he⟩ := (dedupe_mem hp).2
-            obtain ⟨q0, hq0, rfl⟩ := List.mem_map.mp hq
-            rw [← he]
-            exact (hallF q0 hq0).2
-          · intro a ha
-            rcases List.mem_append.mp ha with ha | ha
-            · exact (hinc.2 a ha).1
-            · exact (hfriends a ha).1
-          · exact hcount
-          · exact hfe
-          · simpa using hboth
-        · exact post_stuck _
+        apply post_ok
+        refine ⟨?_, rfl⟩
+        have hallF : FieldsWF (inc.1 ++ fields) := by
+          intro q hq
+          rcases List.mem_append.mp hq with hq | hq
+          · exact hinc.1 q hq
+          · exact hfields q hq
+        apply WF.tmpl
+        · -- table ≠ ""
+          unfold getTruthy at hobj
+          rw [htable] at hobj
+          simpa [Y.truthy] using hobj
+        · exact optStrOf_ne _ _
+        · intro hj
+          cases top with
+          | true => rfl
+          | false => simp [hj] at hjo
+        · intro p hp
+          obtain ⟨q, hq, he⟩ := (dedupe_mem hp).1
+          rw [← he]
+          exact (hallF q hq).1
+        · intro p hp
+          obtain ⟨q, hq, he⟩ := (dedupe_mem hp).2
+          rw [← he]
+          exact (hallF q hq).2
+        · intro a ha
+          rcases List.mem_append.mp ha with ha | ha
+          · exact (hinc.2 a ha).1
+          · exact (hfriends a ha).1
+        · exact hcount
+        · exact hfe
+        · simpa using hboth
     · exact post_stuck _
 
 end step
@@ -417,27 +403,88 @@ theorem parseVersion_post (l : List Y) : Post VersionOk (parseVersion l) := by
       · exact post_err _
     · exact post_err _
 
-theorem loadFile_version (fuel : Nat) (env : Env) (acc : Top) (doc : Y) :
-    Post (fun r => VersionOk r.2.2) (loadFile fuel env acc doc) := by
-  cases fuel with
-  | zero => simp only [loadFile]; exact post_fuel
-  | succ n =>
+theorem mergeVersion_post {cur own : Option Nat} (hc : VersionOk cur) (ho : VersionOk own) :
+    Post VersionOk (mergeVersion cur own) := by
+  unfold mergeVersion
+  split
+  · exact post_ok hc
+  · split
+    · exact post_ok ho
+    · split
+      · exact post_ok ho
+      · exact post_err _
+
+theorem loadFile_version : ∀ (fuel : Nat) (env : Env) (stack : List String) (acc : Top) (doc : Y),
+    VersionOk acc.version → Post (fun r => VersionOk r.1.version) (loadFile fuel env stack acc doc) := by
+  intro fuel
+  induction fuel with
+  | zero => intro env stack acc doc _; simp only [loadFile]; exact post_fuel
+  | succ n ih =>
+    intro env stack acc doc hacc
     cases doc <;> simp only [loadFile] <;> try exact post_err _
+    rename_i data
     simp only [bind_eq, pure_eq]
+    apply post_bind_eq; intro _ _ _
+    -- the fold over the include files keeps the invariant
+    have hfold : ∀ (l : List Y) (init : Top × List Y), VersionOk init.1.version →
+        Post (fun r : Top × List Y => VersionOk r.1.version)
+          (l.foldlM (fun (st : Top × List Y) (inc : Y) =>
+            (parseElement (kvsOf inc) "include_file" [] []).bind fun _ =>
+              match lookup (kvsOf inc) "include_file" with
+              | some (Y.str rel) =>
+                if startsWithSlash rel = true then Res.recipeError Err.syntax
+                else
+                  match List.lookup rel env.files with
+                  | none => Res.recipeError Err.generic
+                  | some c =>
+                    if stack.contains rel = true then Res.recipeError Err.generic
+                    else
+                      match c with
+                      | FileContent.yamlError => Res.recipeError Err.syntax
+                      | FileContent.doc d =>
+                        (loadFile n env (stack ++ [rel]) st.fst d).bind fun sub => Res.ok (sub.fst, st.snd ++ sub.snd) []
+              | x => Res.recipeError Err.syntax) init) := by
+      intro l
+      induction l with
+      | nil => intro init hinit; simp only [List.foldlM_nil, pure_eq]; exact post_ok hinit
+      | cons x xs ihl =>
+        intro init hinit
+        simp only [List.foldlM_cons, bind_eq]
+        apply post_bind (P' := fun r : Top × List Y => VersionOk r.1.version)
+        · apply post_bind_eq; intro _ _ _
+          split
+          · split
+            · exact post_err _
+            · split
+              · exact post_err _
+              · split
+                · exact post_err _
+                · split
+                  · exact post_err _
+                  · apply post_bind (ih env _ init.1 _ hinit)
+                    intro sub hsub
+                    exact post_ok hsub
+          · exact post_err _
+        · intro r hr; exact ihl r hr
+    apply post_bind (hfold _ (acc, []) hacc)
+    intro r hr
+    apply post_bind_eq; intro _ _ _
     apply post_bind_eq; intro _ _ _
     apply post_bind_eq; intro _ _ _
     apply post_bind_eq; intro _ _ _
     apply post_bind_eq; intro _ _ _
     apply post_bind (parseVersion_post _)
+    intro own hown
+    apply post_bind (mergeVersion_post hr hown)
     intro v hv
     exact post_ok hv
 
 theorem parseRecipe_post (fuel : Nat) (env : Env) (doc : Y) :
     Post (fun p => StmtsWF true p.statements ∧ VersionOk p.version) (parseRecipe fuel env doc) := by
   simp only [parseRecipe, bind_eq, pure_eq]
-  apply post_bind (loadFile_version fuel env {} doc)
+  apply post_bind (loadFile_version fuel env [] {} doc (Or.inl rfl))
   intro r hr
-  apply post_bind ((allWF fuel).stmts r.1.macros true r.2.1)
+  apply post_bind ((allWF fuel).stmts r.1.macros [] true r.2)
   intro stmts hs
   exact post_ok ⟨hs, hr⟩
 
